@@ -20,6 +20,18 @@ def run(ctx):
     try:
         for i in range(ctx.n(300)):
             g = gen.random_graph(rng, meta_p=0.35, share_p=0.25) if i % 4 else gen.consistent_graph(rng, erase=False)[0]
+            if rng.random() < 0.25:
+                # an Input / Output whose own type was re-assigned after construction (e.g. a widened last layer),
+                # the mirrored side left alone
+                shared = {x for pair in g.get("share", []) for x in pair}
+                ports = [r for n, r in g["nodes"] if r["type"] in ("Input", "Output") and "types" not in r and n not in shared]
+                if ports:
+                    r = rng.choice(ports)
+                    a = gen.shape(rng, rank=rng.randrange(1, 3), hi=7)
+                    b = [x + 2 for x in a]
+                    mk = lambda key, sh: {"d": [[key, {"a": "<i8", "sh": [len(sh)], "x": np.array(sh, dtype="<i8").tobytes().hex()}]]}
+                    r["types"] = [mk("input", b if r["type"] == "Input" else a), mk("output", a if r["type"] == "Input" else b)]
+                    ctx.count("reassigned_port_type")
             case = {"op": "write_layout", "graph": g}
             ctx.case(case); ctx.count("graphs")
             try:
